@@ -71,6 +71,7 @@ def run_mt(prop, harness, variant, arg_sets, verdict, result=None, timeout=900, 
                 key, _, text = body.partition(" :: ")
                 verdict.violation(key.strip(), text.strip(),
                                   "cmd: %s\n\n%s\n\nstdout tail:\n%s" % (cmdline, ln, r.out[-4000:]))
+        reps = []
         if _kind(variant) == "tsan":
             reps = core.tsan_reports(r.err)
             res.tsan_reports += len(reps)
@@ -80,8 +81,8 @@ def run_mt(prop, harness, variant, arg_sets, verdict, result=None, timeout=900, 
         done = "DONE " in r.out
         if r.rc != 0 or not done:
             ss = core.san_summary(r.err)
-            if _kind(variant) == "tsan" and r.rc == 66 and done:
-                continue  # reports already routed above
+            if _kind(variant) == "tsan" and done and r.rc in (66, 87) and reps:
+                continue  # exit code only reflects the reports already routed above
             if ss:
                 k = "%s:%s:%s" % (kp, ss[0], ">".join(ss[1][:4]))
                 what = "process died: %s" % ss[0]
